@@ -4,10 +4,12 @@ from evalutil import *
 
 ID = "C14"
 LEVEL = "proof"
-MODULES = ["H3Proofs.Props.C14", "H3Proofs.Props.C14Round"]
+MODULES = ["H3Proofs.Props.C14", "H3Proofs.Props.C14Round", "H3Proofs.Props.C09Valid"]
 THEOREMS = "auto"
 ASSUMPTIONS = ["model of gridPathCells with cubeRound in IEEE doubles (Lean Float = C double; bit-identical "
                "rounding including ties), tied by exact correspondence of the cell sequences"]
+ASSUMPTIONS.append("every cell gridPathCells writes is PROVED to be a valid cell of the start's resolution, whatever the "
+                   "floating-point interpolation produced (C09Valid.gridPathCells_valid)")
 NOT_PROVED = ["consecutive cells are neighbours (cell-level) — evaluated on the real library with areNeighborCells"]
 EXPLANATION = ("size = distance + 1 (theorem); exact correspondence of paths; evaluator: length, endpoints and "
                "neighbour steps on pairs within pentagon neighbourhoods at all resolutions and on long paths")
